@@ -173,7 +173,7 @@ func runC11(r *ev.Run) {
 		w.prev = text
 	}
 	classes := universe.ThreeMan()
-	classes = append(classes, parseClasses(seedFour(r, 1, 1, 6))...)
+	classes = append(classes, parseClasses(seedFour(r, 1, 0, 6))...)
 	r.Set("classes", classNames(classes))
 	counters := [][2]int{{0, 1}, {1, 2}, {7, 9}, {50, 10}, {99, 99}, {100, 100}, {13, 999}, {0, 1000}, {42, 9999}, {5, 123456}}
 	var cc atomic.Int64
